@@ -382,3 +382,87 @@ def used_constructs(body):
             if s[3]:
                 out.add('except')
     return out
+
+
+# ---------------------------------------------------------------------------------------
+# small-scope exhaustive enumeration (mirrors coq/Cfg/BuilderBounded.v: stmts_sz / blocks_sz)
+# ---------------------------------------------------------------------------------------
+def enum_stmts(n, memo_s={}, memo_b={}):
+    if n in memo_s:
+        return memo_s[n]
+    if n <= 0:
+        out = []
+    elif n == 1:
+        out = [('simple', 0), ('return', 0), ('raise', 0), ('break', 0), ('continue', 0), ('comp', 0, [1, 0])]
+    else:
+        m = n - 1
+        one = enum_blocks(m)
+        two = [(a, b) for i in range(1, m) for a in enum_blocks(i) for b in enum_blocks(m - i)]
+        out = []
+        out += [('if', 0, b, [], None) for b in one]
+        out += [('if', 0, a, [], b) for a, b in two]
+        out += [('if', 0, a, [(0, b)], None) for a, b in two]
+        out += [('while', 0, b, None) for b in one]
+        out += [('while', 0, a, b) for a, b in two]
+        out += [('try', 0, a, [(0, b)], None, None) for a, b in two]
+        out += [('try', 0, a, [], None, b) for a, b in two]
+        out += [('with', 0, b) for b in one]
+        out += [('match', 0, [(0, b)]) for b in one]
+    memo_s[n] = out
+    return out
+
+
+def enum_blocks(n, memo={}):
+    if n in memo:
+        return memo[n]
+    if n == 0:
+        out = [[]]
+    else:
+        out = []
+        for k in range(1, n + 1):
+            for s in enum_stmts(k):
+                for r in enum_blocks(n - k):
+                    out.append([s] + r)
+    memo[n] = out
+    return out
+
+
+def loops_ok(b, inl):
+    for s in b:
+        c = s[0]
+        if c in ('break', 'continue'):
+            if not inl:
+                return False
+        elif c in ('while', 'for'):
+            if not loops_ok(s[2], True) or (s[3] is not None and not loops_ok(s[3], inl)):
+                return False
+        elif c == 'class':
+            if not loops_ok(s[3], False):
+                return False
+        elif c != 'def':
+            for _, sb in sub_blocks(s):
+                if not loops_ok(sb, inl):
+                    return False
+    return True
+
+
+def enum_function_bodies(max_size):
+    """Every body with <= max_size statement nodes that is legal as a function body, plus each body wrapped in a
+    loop with an else clause (so that break/continue and the break-out flag are exercised)."""
+    out = []
+    for n in range(1, max_size + 1):
+        for b in enum_blocks(n):
+            if loops_ok(b, False):
+                out.append(b)
+            if loops_ok(b, True):
+                out.append([('while', 0, b, [('return', 0)]), ('simple', 0)])
+    return out
+
+
+def modules_from_bodies(bodies, per_module=40):
+    mods = []
+    for off in range(0, len(bodies), per_module):
+        m = [('def', 0, i + 1, b) for i, b in enumerate(bodies[off:off + per_module])]
+        ast, lines = layout(m)
+        mods.append({"ast": ast, "lines": lines})
+    return mods
